@@ -327,12 +327,13 @@ PROPS["C16"] = dict(
 PROPS["C02"] = dict(
     pkg="c02", level="translation_validation",
     technique="property-based testing (rapid) of spec/Go pairs with TLC as step oracle: generated schedules of the real generated archetypes on a spec-faithful environment; every committed step is judged by TLC against the label's action of the checked-in PlusCal translation",
-    level_text="For the pairs locksvc, dqueue and pbkvs the real generated archetypes run under the deterministic scheduler on harness implementations of the spec's "
+    level_text="For the pairs locksvc, dqueue, pbkvs and raftkvs the real generated archetypes run under the deterministic scheduler on harness implementations of the spec's "
                "mapping macros; who steps, every either/with choice, every bag delivery and every crash (mayFail) are rapid draws. After every commit the complete spec "
                "state (globals, pc, every process-local variable read from the contexts) is recorded; the traces are emitted as a TLA+ module that EXTENDS the "
                "checked-in spec, and TLC checks Init on the first state and [][label(self)]_vars on every step (so enabling conditions, variable updates, next label, "
                "messages and assertions are all judged by the translation itself). Aborted attempts must leave the state unchanged.",
-    level_note="Only checked-in pairs can be covered (the PGo compiler cannot run here). Covered: locksvc, dqueue, pbkvs. Not covered: raftkvs (19k-line translation; planned), "
+    level_note="Only checked-in pairs can be covered (the PGo compiler cannot run here). Covered: locksvc, dqueue, pbkvs, raftkvs (all 12 labels of its 19k-line translation; the five archetypes of every server "
+               "share real LocalShared variables as bootstrap wires them; schedules from the C08 driver incl. partitions and crash-stops, which do not change the spec state). Not covered: "
                "proxy and loadbalancer (their checked-in translations are of an older shape), the CRDT/2PC-bound systems and the compiler test pairs. The mapping-macro "
                "views are the harness's transcription of the spec's macros: a transcription error shows up as a TLC rejection on the unchanged tree (harness bug).",
     rule="drawn schedules per pair; non-trivial = a committed step of a label that accesses a resource (more than the pc read/write), distinct by (pair, label, pre-state).",
@@ -340,6 +341,7 @@ PROPS["C02"] = dict(
         dict(test="TestC02LockSvc", late=False, quick=dict(checks=40, shards=1, timeout=600), thorough=dict(checks=1500, shards=4, timeout=3000)),
         dict(test="TestC02DQueue", quick=dict(checks=40, shards=1, timeout=600), thorough=dict(checks=1500, shards=4, timeout=3000)),
         dict(test="TestC02PBKVS", quick=dict(checks=40, shards=1, timeout=600), thorough=dict(checks=1500, shards=4, timeout=3000)),
+        dict(test="TestC02RaftKVS", quick=dict(checks=24, shards=2, timeout=900), thorough=dict(checks=1600, shards=8, timeout=3300)),
     ],
 )
 
